@@ -40,10 +40,11 @@ def literal_text(rows_of_names):
 
 class Inst:
     """one case instantiated for a concrete kind: which variable stands for which block"""
-    __slots__ = ("cs", "kind", "other", "one", "names", "kinds", "bases", "steps_rows", "step_full", "step_defs")
+    __slots__ = ("cs", "kind", "other", "one", "names", "kinds", "bases", "steps_rows", "step_full", "step_defs", "tv")
     def __init__(self, cs, kind, other, one):
         self.cs = cs; self.kind = kind; self.other = other; self.one = one
         self.names = []; self.kinds = []; self.bases = []     # per block, reading order
+        self.tv = None
 
     def blocks(self):
         return [b for row in self.cs["rows"] for b in row]
@@ -56,7 +57,8 @@ class Inst:
 
     def token_values(self):
         """model token (1..n, block by block in reading order) -> concrete value of that cell"""
-        vals = {}
+        if self.tv is not None: return self.tv
+        vals = self.tv = {}
         t = 0
         for b, k, base in zip(self.blocks(), self.kinds, self.bases):
             for p in range(1, b[0] * b[1] + 1):
@@ -244,10 +246,13 @@ def run(rep, tier, seed):
         if quick:
             ks = [(k, "s") for k in QUICK_KINDS] + [(allk[n % len(allk)], "s"), (allk[(n // 3 + 7) % len(allk)], "m")]
         elif not cs["mut"] or cs["n"] <= 9:
-            ks = [(k, "s") for k in allk] + [(allk[(n + j * 5) % len(allk)], "m") for j in range(3)]
+            ks = [(k, "s") for k in allk] + [(allk[(n + j * 7) % len(allk)], "m") for j in range(2)]
+        elif cs["why"] == "kind":
+            # one block of another kind in a larger tiling: one rotating kind (the other kind rotates too)
+            ks = [(allk[n % len(allk)], "s" if n % 4 else "m")]
         else:
-            # near-misses of the larger tilings: f64 and three rotating kinds (every kind sees 1/5 of them)
-            ks = [("f64", "s")] + [(allk[1 + (n + j * 5) % (len(allk) - 1)], "s" if j else "m") for j in range(3)]
+            # shape near-misses of the larger tilings: one of the quick kinds and one rotating kind
+            ks = [(QUICK_KINDS[n % 4], "s"), (allk[(n // 4) % len(allk)], "s" if n % 3 else "m")]
         for key in dict.fromkeys(ks):
             groups[key].append(n)
     insts = []; sessions = []
@@ -302,9 +307,9 @@ def run(rep, tier, seed):
                     "pooled_sessions": len(reqs), "isolated_reruns": len(suspects),
                     "exact_matched": tally["exact_ok"], "rejects_matched": tally["reject_ok"], "free_outcomes": 0,
                     "arms_hit": len(arms), "kinds": sorted({i.kind for i in insts}), "exhaustive": True,
-                    "rule": "every tiling of an R x C result (R, C <= MaxDim; plus the listed larger shapes) by all compositions of the "
+                    "rule": "every tiling of an R x C result (quick: R, C <= 3 plus 1x4, 2x4, 4x1, 4x2; thorough: R, C <= 4 plus 5x6, 9x2, 2x9, 1x7, 7x1 by <= 2 rows of <= 3 blocks) by all compositions of the "
                             "height into rows and of every row's width into blocks, every near-miss (one block one unit taller/shorter/"
-                            "wider/narrower or of another kind), de-duplicated by layout; each replayed per element kind with pre-defined "
+                            "wider/narrower or of another kind; quick: of the tilings up to 3x3), de-duplicated by layout; each replayed per element kind with pre-defined "
                             "block variables holding distinct values; rows are also evaluated on their own"})
     rnd = random.Random(seed)
     pick = [insts[0], insts[-1]] + rnd.sample(insts, min(30, len(insts)))
